@@ -282,6 +282,10 @@ def main():
                 harness_errors.append("known finding %s cannot be replayed: %s" % (k["id"], r.get("exception")))
             elif k["status"] == "known" and still:
                 known_lines.append("KNOWN-FINDING: property=%s %s [%s]" % (pid, k["what"], k["id"]))
+            elif k["status"] == "known":
+                # the listed defect no longer shows on its witness: either the code was repaired, or the witness went stale
+                # (e.g. a generator table was re-ordered). Said aloud so that a stale entry cannot silently stop being reported.
+                known_lines.append("NOTE: property=%s known finding [%s] does not reproduce on its recorded witness any more" % (pid, k["id"]))
             elif k["status"] == "fixed" and still:
                 path = os.path.join(replay_dir, "regressed-%s.json" % k["id"])
                 json.dump({"property": pid, "module": k.get("module", module), "condition": k["condition"], "args": k["args"],
